@@ -55,6 +55,7 @@ type patternReader struct {
 	failAt      int // -1: never; otherwise fail with failErr once pos reaches failAt
 	failErr     error
 	failWithData bool
+	transient   bool // the failure is reported exactly once; later calls carry on with the data
 	calls       int
 }
 
@@ -64,6 +65,9 @@ func (p *patternReader) Read(b []byte) (int, error) {
 		return 0, nil
 	}
 	if p.failAt >= 0 && p.pos >= p.failAt {
+		if p.transient {
+			p.failAt = -1
+		}
 		return 0, p.failErr
 	}
 	s := 1 << 30
@@ -91,6 +95,9 @@ func (p *patternReader) Read(b []byte) (int, error) {
 	copy(b, p.data[p.pos:p.pos+n])
 	p.pos += n
 	if p.failAt >= 0 && p.pos >= p.failAt && p.failWithData {
+		if p.transient {
+			p.failAt = -1
+		}
 		return n, p.failErr
 	}
 	if p.pos == len(p.data) && p.eofWithData && p.failAt < 0 {
@@ -406,17 +413,19 @@ func runC29(r *Run) {
 			doc := dc.doc
 			step := 1 + len(doc)/80
 			for k := 0; k <= len(doc); k += step {
-				for _, withData := range []bool{false, true} {
+				for mode := 0; mode < 4; mode++ {
+					withData := mode&1 == 1
+					transient := mode&2 == 2 // the reader reports the failure once and then carries on
 					if withData && k == 0 {
 						continue
 					}
 					sizes, _ := randomSizes(rng)
 					mk := func() io.Reader {
-						return &patternReader{data: doc, sizes: sizes, failAt: k, failErr: errInjected, failWithData: withData}
+						return &patternReader{data: doc, sizes: sizes, failAt: k, failErr: errInjected, failWithData: withData, transient: transient}
 					}
 					if dc.format == "cbe" {
 						got, rerr := drainAdapter(cbe.VerifNewReaderAdapter(mk()), len(doc)+5)
-						r.out.Line("corr", fmt.Sprintf("%d.%d.%v", idx, k, withData), "READER.FAULT", []string{hx(doc), sizesText(sizes), fmt.Sprintf("%d", k), b01(withData)}, adapterResult(got, rerr))
+						r.out.Line("corr", fmt.Sprintf("%d.%d.%d", idx, k, mode), "READER.FAULT", []string{hx(doc), sizesText(sizes), fmt.Sprintf("%d", k), b01(withData)}, adapterResult(got, rerr))
 						if rerr != errInjected || !bytes.Equal(got, doc[:k]) {
 							r.out.Finding("C29", "adapter-fault-lost", fmt.Sprintf("the reader adapter delivers %s and then %v for a source failing at offset %d", hx(got), rerr, k), hx(doc))
 						}
@@ -447,7 +456,7 @@ func runC29(r *Run) {
 						if pan != nil {
 							r.out.Finding("C29", "read-fault-panic:"+e.name, fmt.Sprintf("%s lets a panic escape when the reader fails at offset %d: %v", e.name, k, pan), dc.format+":"+hx(doc))
 						} else if err == nil {
-							r.out.Finding("C29", "read-fault-unreported:"+e.name, fmt.Sprintf("%s reports success although the reader failed with a non-EOF error at offset %d of %d (with data: %v)", e.name, k, len(doc), withData), dc.format+":"+hx(doc))
+							r.out.Finding("C29", "read-fault-unreported:"+e.name, fmt.Sprintf("%s reports success although the reader failed with a non-EOF error at offset %d of %d (with data: %v, failure reported once only: %v)", e.name, k, len(doc), withData, transient), dc.format+":"+hx(doc))
 						}
 					}
 				}
